@@ -733,9 +733,26 @@ pub fn replay_in_subprocess(id: &str, tier: Tier, idx: u64) -> Result<(String, O
 pub fn replay_seq_in_subprocess(id: &str, tier: Tier, idxs: &[u64]) -> Result<String, String> {
     let exe = std::env::current_exe().map_err(|e| e.to_string())?;
     let list: Vec<String> = idxs.iter().map(|i| i.to_string()).collect();
+    let joined = list.join(",");
     let mut cmd = Command::new(exe);
-    cmd.arg("--seq").arg(id).arg(tier.name()).arg(list.join(","));
-    let out = match output_with_deadline(cmd, REPLAY_DEADLINE_S + idxs.len() as u64)? {
+    cmd.arg("--seq").arg(id).arg(tier.name());
+    let mut tmp: Option<std::path::PathBuf> = None;
+    if joined.len() > 60_000 {
+        // too long for one argument: hand it over in a file
+        let dir = PathBuf::from(format!("{}/.work", crate::root()));
+        let _ = std::fs::create_dir_all(&dir);
+        let path = dir.join(format!("history-{}-{}-{}.txt", id, std::process::id(), idxs.last().copied().unwrap_or(0)));
+        std::fs::write(&path, &joined).map_err(|e| e.to_string())?;
+        cmd.arg(format!("@{}", path.display()));
+        tmp = Some(path);
+    } else {
+        cmd.arg(joined);
+    }
+    let out = output_with_deadline(cmd, REPLAY_DEADLINE_S + idxs.len() as u64 / 50);
+    if let Some(p) = tmp {
+        let _ = std::fs::remove_file(p);
+    }
+    let out = match out? {
         Some(o) => o,
         None => return Ok("crash:hang".to_string()),
     };
